@@ -263,7 +263,9 @@ def observed_violation(mode, model, obs):
     if mode == 'readahead_started':
         return obs.get('max_started_minus_delivered', 0) > P['buffer_size'], f'max started-delivered {obs.get("max_started_minus_delivered")} B={P["buffer_size"]}'
     if mode == 'cancelled':
-        return bool(obs.get('started_after_close')), f'tasks started after close: {obs.get("started_after_close")}'
+        return bool(obs.get('pending_at_exit')) or bool(obs.get('started_after_close')), \
+            f'futures still PENDING when the consumer had stopped and the main thread stood at the executor exit: {obs.get("pending_at_exit")}; ' \
+            f'tasks started after the stop completed: {obs.get("started_after_close")}'
     return False, 'no observer for ' + mode
 
 
@@ -354,10 +356,17 @@ def replay_lpm_thread(model, step_timeout=1.0):
             raise _exc_class(taskfail_kind)(i)
         return i
 
+    futures = []
+
     class GatedTPE(concurrent.futures.ThreadPoolExecutor):
         def __init__(self, *a, **kw):
             super().__init__(*a, **kw)
             self._work_queue = _GatedQueue(ctl)
+
+        def submit(self, *a, **kw):
+            f = super().submit(*a, **kw)
+            futures.append(f)
+            return f
 
     class _CF:
         def __getattr__(self, name):
@@ -380,6 +389,7 @@ def replay_lpm_thread(model, step_timeout=1.0):
                     delivered.append(x)
                     events.append(('deliver', x))
                     if len(delivered) == close_at:
+                        events.append(('closing',))
                         g.close()
                         events.append(('closed',))
                         break
@@ -397,7 +407,17 @@ def replay_lpm_thread(model, step_timeout=1.0):
         m = threading.Thread(target=main_role, daemon=True)
         m.start()
         mismatches, followed, skipped = [], 0, 0
+        exit_lines = {st['line'] for st in model['trace'] if st.get('label') == 'executor.__exit__'}
+        pending_at_exit = None
+
+        def probe_exit():
+            # mirrors the `cancelled` query: the consumer has stopped early, the main thread stands at the executor's __exit__,
+            # and a submitted future is still PENDING (it will be executed instead of cancelled)
+            nonlocal pending_at_exit
+            if pending_at_exit is None and any(e[0] == 'closing' for e in events) and ctl.at.get('$main') in exit_lines:
+                pending_at_exit = [k for k, f in enumerate(futures) if not f.done() and not f.running()]
         for step in model['trace']:
+            probe_exit()
             if step.get('local'):
                 followed += 1
                 continue
@@ -425,6 +445,8 @@ def replay_lpm_thread(model, step_timeout=1.0):
             ctl.release(th)
             followed += 1
             ctl.settle(th)
+        probe_exit()
+        mark = len(events)          # everything after this point happens after the end of the model's schedule
         # drain
         deadline = time.time() + 3.0
         while time.time() < deadline:
@@ -443,7 +465,11 @@ def replay_lpm_thread(model, step_timeout=1.0):
                    steps=len(model['trace']), main_alive=m.is_alive(), workers_alive=[], events=list(events))
         idx_closed = next((k for k, e in enumerate(events) if e[0] == 'closed'), None)
         idx_ret = next((k for k, e in enumerate(events) if e[0] == 'returned'), None)
-        out['started_after_close'] = [e[1] for k, e in enumerate(events) if e[0] == 'start' and idx_closed is not None and k > idx_closed]
+        idx_closing = next((k for k, e in enumerate(events) if e[0] == 'closing'), None)
+        # tasks that start once the consumer has stopped early and the main thread has run to the end of the model's schedule
+        # (the `cancelled` query ends it at the executor's __exit__): they were still pending there and get executed instead of cancelled
+        out['started_after_close'] = [e[1] for k, e in enumerate(events) if e[0] == 'start' and idx_closing is not None and k >= mark and k > idx_closing] + \
+            [e[1] for k, e in enumerate(events) if e[0] == 'start' and idx_closed is not None and k > idx_closed]
         out['ran_after_return'] = [e for k, e in enumerate(events) if e[0] in ('start', 'finish') and idx_ret is not None and k > idx_ret]
         pulled = started = deliv = 0
         mp_, ms_ = 0, 0
@@ -457,6 +483,7 @@ def replay_lpm_thread(model, step_timeout=1.0):
             mp_ = max(mp_, pulled - deliv)
             ms_ = max(ms_, started - deliv)
         out['max_pulled_minus_delivered'], out['max_started_minus_delivered'] = mp_, ms_
+        out['pending_at_exit'] = pending_at_exit or []
         ctl.release_all()
         return out
     finally:
